@@ -15,6 +15,7 @@ import (
 	"fmt"
 	"net"
 	"strings"
+	"sync"
 	"text/template"
 
 	"k8s.io/client-go/dynamic"
@@ -25,6 +26,66 @@ import (
 
 //verif:stub (*text/template.Template).Funcs -> h05Funcs
 //verif:stub net.LookupHost -> h05LookupHost
+//verif:stub (*sync.Map).Load -> h05SMLoad
+//verif:stub (*sync.Map).Store -> h05SMStore
+//verif:stub (*sync.Map).LoadOrStore -> h05SMLoadOrStore
+//verif:stub (*sync.Map).Delete -> h05SMDelete
+
+// sync.Map model (class S): go1.24's sync.Map is a hash trie over abi type words that
+// the executor cannot interpret; a memo table that chart code keeps in one is modelled
+// as an association list per map with the same Load/Store/LoadOrStore/Delete contract.
+type h05SM struct{ keys, vals []any }
+
+var h05SyncMaps = map[*sync.Map]*h05SM{}
+
+func h05SMOf(m *sync.Map) *h05SM {
+	sm := h05SyncMaps[m]
+	if sm == nil {
+		sm = &h05SM{}
+		h05SyncMaps[m] = sm
+	}
+	return sm
+}
+
+func h05SMLoad(m *sync.Map, key any) (any, bool) {
+	sm := h05SMOf(m)
+	for i, k := range sm.keys {
+		if k == key {
+			return sm.vals[i], true
+		}
+	}
+	return nil, false
+}
+
+func h05SMStore(m *sync.Map, key, value any) {
+	sm := h05SMOf(m)
+	for i, k := range sm.keys {
+		if k == key {
+			sm.vals[i] = value
+			return
+		}
+	}
+	sm.keys, sm.vals = append(sm.keys, key), append(sm.vals, value)
+}
+
+func h05SMLoadOrStore(m *sync.Map, key, value any) (any, bool) {
+	if v, ok := h05SMLoad(m, key); ok {
+		return v, true
+	}
+	h05SMStore(m, key, value)
+	return value, false
+}
+
+func h05SMDelete(m *sync.Map, key any) {
+	sm := h05SMOf(m)
+	for i, k := range sm.keys {
+		if k == key {
+			sm.keys = append(sm.keys[:i], sm.keys[i+1:]...)
+			sm.vals = append(sm.vals[:i], sm.vals[i+1:]...)
+			return
+		}
+	}
+}
 
 // a resolver that answers: any call is a DNS lookup made on behalf of chart content
 var h05Lookups int
@@ -128,4 +189,45 @@ func H05Files() {
 	}
 	vAssert("files/lines-of-foreign-name-empty-or-own", name == "b" || name == "c/a" || len(f.Lines(name)) == 0 || (len(f.Lines(name)) == 1 && f.Lines(name)[0] == ""))
 	vObservef("%q -> %q", name, got)
+}
+
+// H05Glob: .Files.Glob / AsConfig / AsSecrets answer from the asking chart's own
+// files only, whatever pattern is asked and whatever another chart (or an earlier
+// render) asked before with the same pattern. Two file sets share one name with
+// different content; the same symbolic pattern is globbed on the first, then on
+// the second, then on the first again. Runs the real files.Glob (gobwas/glob
+// compile + match), AsConfig and AsSecrets.
+func H05Glob() {
+	one := newFiles([]*chart.File{{Name: "a", Data: []byte("1")}, {Name: "d/b", Data: []byte("2")}})
+	two := newFiles([]*chart.File{{Name: "a", Data: []byte("X")}, {Name: "c", Data: []byte("3")}})
+	pat := ndStringIn("pat", ndIntRange("pat.len", 0, vBound("globlen", 2)), "ab*/d")
+	r1 := one.Glob(pat)
+	r2 := two.Glob(pat)
+	r1b := one.Glob(pat)
+	for name, data := range r1 {
+		own, ok := one[name]
+		vAssert("glob/result-is-the-asking-charts-own-file", ok && string(own) == string(data))
+	}
+	for name, data := range r2 {
+		own, ok := two[name]
+		vAssert("glob/result-is-the-asking-charts-own-file", ok && string(own) == string(data))
+	}
+	vAssert("glob/repeatable", len(r1) == len(r1b))
+	for name, data := range r1b {
+		vAssert("glob/repeatable", string(r1[name]) == string(data))
+	}
+	// reference answers for the patterns whose meaning is fixed by the documentation
+	switch pat {
+	case "a":
+		vAssert("glob/literal-name", len(r1) == 1 && len(r2) == 1 && string(r2["a"]) == "X")
+	case "*":
+		vAssert("glob/star-stops-at-separator", len(r1) == 1 && len(r2) == 2 && string(r2["c"]) == "3")
+	case "**":
+		vAssert("glob/doublestar-all", len(r1) == 2 && len(r2) == 2)
+	case "d/*":
+		vAssert("glob/dir-star", len(r1) == 1 && len(r2) == 0 && string(r1["d/b"]) == "2")
+	}
+	cfg2 := r2.AsConfig()
+	vAssert("glob/asconfig-own-content-only", !strings.Contains(cfg2, "1") && !strings.Contains(cfg2, "2"))
+	vObservef("%q -> %d %d %q", pat, len(r1), len(r2), cfg2)
 }
